@@ -29,10 +29,12 @@ def gen(ck, params, cfgs):
             cases.append(("lift:" + tag, cfg, "lift %s %s" % (head, nc.flat(v))))
             cases.append(("lift_unlift:" + tag, cfg, "lift_unlift %s %s" % (head, nc.flat(v))))
             cases.append(("lift_inplace (reused array):" + tag, cfg, "lift_inplace %s %s" % (head, nc.flat(v))))
-        ints = [0, 1, Q - 1, Q, Q + 1, -1, -Q, -Q - 1, 2 ** 700, -(2 ** 700) + 12345, Q // 2, rng.randrange(Q), -rng.randrange(Q * Q), ps[0], -ps[-1]]
+        ints = [0, 1, Q - 1, Q, Q + 1, -1, -Q, -Q - 1, -5, 2 ** 63, -(2 ** 63), 2 ** 64 - 1, -(2 ** 64) + 1, 2 ** 64, -(2 ** 64), 2 ** 700, -(2 ** 700) + 12345, Q // 2, rng.randrange(Q), -rng.randrange(Q * Q), ps[0], -ps[-1]]
         for k in range(0, len(ints), n):
             chunk = (ints[k:k + n] + [7] * n)[:n]
             cases.append(("unlift: integers of any sign/magnitude", cfg, "unlift %s %s" % (head, " ".join(map(str, chunk)))))
+            cases.append(("unlift through set_mpz(array)", cfg, "unlift_set %s %s" % (head, " ".join(map(str, chunk)))))
+            cases.append(("unlift through the mpz_class-array constructor", cfg, "unlift_ctor %s %s" % (head, " ".join(map(str, chunk)))))
             cases.append(("rt: integer -> residues -> integer = v mod Q", cfg, "rt %s %s" % (head, " ".join(map(str, chunk)))))
         for (ta, a), (tb, b) in ((pats[5], pats[6]), (pats[0], pats[0]), (pats[0], pats[2]), (pats[3], pats[5])):
             for op in ("ringadd", "ringsub", "ringmul"):
@@ -63,6 +65,7 @@ def run(ck):
     nc.report(ck, fails, [c for c in corr if "?" not in c[4]], what="CRT conversion")
     ck.assumptions = ["GMP functions modelled by their documented meaning on Z (mpz_fdiv_ui = floor residue, mpz_tdiv_q_2exp on non-negatives = floor shift, mpz_invert = inverse in [0,p))",
                       "extracted model compared for <= 12 moduli (bit-serial Z arithmetic); beyond that the real library is compared with the independent zarith CRT only"]
+    vf.run_deps(ck, ['C15'])
     return ck.finish(trusted=["coqc 8.16.1 kernel", "extraction + driver.ml (zarith spec side: Z.invert-based CRT)", "h_crt.cpp harness, GMP", "translator"], extra_cov={"params_sha": info})
 
 def replay(ck, rec):
